@@ -523,6 +523,10 @@ class ReaderWalk(Walker):
                     return
             self.walk(init, guards, loops)
             return
+        if k == "assign" and self._branching_value(n["r"]):
+            # x.f = if COND { ..; Some(v) } else { None }   (expression-oriented form of `if COND { x.f = Some(v) } else { x.f = None }`)
+            self._assign_value(n, self.field_of(n["l"]), n["r"], guards, loops)
+            return
         if k == "assign":
             rc = self.read_call(n["r"])
             f = self.field_of(n["l"])
@@ -637,6 +641,57 @@ class ReaderWalk(Walker):
                 return
         for c in children(n):
             self.walk(c, guards, loops)
+
+    @staticmethod
+    def _strip_refs(e):
+        while e.get("k") in ("ref", "cast") or (e.get("k") == "un" and e.get("op") == "Deref"):
+            e = e["e"]
+        return e
+
+    def _branching_value(self, e):
+        """An `if` (possibly behind refs) at least one of whose branches does work before yielding its value."""
+        e = self._strip_refs(e)
+        if e.get("k") != "if":
+            return False
+        return any(b.get("k") == "block" and b.get("st") for b in (e.get("t", {}), e.get("e", {})))
+
+    def _assign_value(self, node, f, e, guards, loops):
+        e = self._strip_refs(e)
+        k = e.get("k")
+        if k == "block":
+            for s in e["st"]:
+                self.walk(s, guards, loops)
+            if "tail" in e:
+                self._assign_value(node, f, e["tail"], guards, loops)
+            return
+        if k == "if":
+            c = peel(e["c"], NO_T)
+            b = local_of(c, NO_T)
+            rc = self.read_call(c)
+            if rc:
+                idx = self.add(rc[0], "<presence>", guards, loops, c)
+                keys_t, keys_e = ["bool@%d" % idx], ["nobool@%d" % idx]
+            elif b is not None and b in self.pending:
+                idx = self.pending.pop(b)
+                self.ops[idx].field = "<presence>"
+                keys_t, keys_e = ["bool@%d" % idx], ["nobool@%d" % idx]
+            else:
+                keys_t, keys_e = self.cond_key(e["c"], True), self.cond_key(e["c"], False)
+            self._assign_value(node, f, e["t"], guards + keys_t, loops)
+            if "e" in e:
+                self._assign_value(node, f, e["e"], guards + keys_e, loops)
+            return
+        rc = self.read_call(e)
+        if rc:
+            idx = self.add(rc[0], f or "?:" + describe_short(node["l"]), guards, loops, node)
+            self.fill_arg(rc[1], idx)
+            return
+        b = self.local_in(e)
+        if b is not None and b in self.pending and f is not None:
+            self.ops[self.pending[b]].field = f
+            del self.pending[b]
+        elif b is not None and b in self.roots and str(self.roots[b]).startswith("<new:") and f is not None:
+            self.rebase(self.roots[b], f)
 
     def contains_read(self, e):
         return any(self.read_call(x) and self.read_call(x)[1] is x for x in hirq.walk(e) if x.get("k") == "mcall")
